@@ -20,7 +20,7 @@ type zzSlot struct {
 	q             decimal.Decimal
 }
 
-var zzCheckAccounts = []string{"Assets:A", "Expenses:X"}
+var zzCheckAccountSets = [][]string{{"Assets:A", "Expenses:X"}, {"Assets:A", "Equity:E"}}
 var zzCheckDays = []string{"2020-01-31", "2020-02-01"}
 var zzCheckComms = []string{"C1", "C2"}
 
@@ -52,6 +52,7 @@ func VerifCheckIff() {
 			s.a = 0 // assertions on non-A/L accounts are outside the property's iff
 		}
 	}
+	zzCheckAccounts := zzCheckAccountSets[v.Param("accset")]
 	build := func(reg *model.Registry) *journal.Builder {
 		acc := []*model.Account{reg.Accounts().MustGet(zzCheckAccounts[0]), reg.Accounts().MustGet(zzCheckAccounts[1])}
 		ctr := reg.Accounts().MustGet("Equity:Equity")
